@@ -660,6 +660,8 @@ def rule_m1(ctx: Ctx, sites: List[OpenSite]) -> None:
             continue
         if write_once:
             ctx.ok("C20-M1", s.fi.where, f"memoised reader ({memo[0]}), but its writer never changes an existing file (write-once): the memo cannot go stale", s.call, s.fi)
+        elif not peers:
+            raise AnalysisError(f"{s.fi.where}: memoised reader ({memo[0]}) but the writer of its file was not recognised; whether the file can change is not decided")
         else:
             ctx.violation("C20-M1", s.fi, s.fi.node, f"{s.fi.qual} is memoised ({memo[0]}) although the file it reads can be rewritten: after a later write (or a first read that found the file missing) it keeps returning the earlier result")
     if n == 0:
